@@ -192,6 +192,35 @@ def decide (pkgPath : Text) (importsUnsafe : Bool) (lookup : Text → Node) (com
       | .func true => if isMitigatedInsert l.reference then .skip else .errInsert
       | _ => if isMitigatedVar l.reference then .skip else .errNotFunc
 
+/-! ### `Sources.ParseGoLinknames` — all files of a package -/
+
+/-- what `linkname.ParseGoLinknames` returns for ONE file: the accepted directives and the errors (`decide` folded over
+    the file's comments, linkname.go:168-176) -/
+structure FileResult where
+  links : List Link
+  errs : List Decision
+deriving DecidableEq, Repr
+
+def parseFileComments (pkgPath : Text) (importsUnsafe : Bool) (lookup : Text → Node) (comments : List Text) : FileResult :=
+  comments.foldl (fun acc c =>
+    match decide pkgPath importsUnsafe lookup c with
+    | .skip => acc
+    | .accept l => { acc with links := acc.links ++ [l] }
+    | e => { acc with errs := acc.errs ++ [e] }) ⟨[], []⟩
+
+/-- compiler/sources/sources.go:188-203 `Sources.ParseGoLinknames`: the files in `Sources.Sort` order; the directives
+    are concatenated and the errors ACCUMULATED (`errs = errs.Append(err)`); the package is rejected iff the accumulated
+    list is non-empty. -/
+def parsePackage (files : List FileResult) : FileResult :=
+  files.foldl (fun acc f => ⟨acc.links ++ f.links, acc.errs ++ f.errs⟩) ⟨[], []⟩
+
+def packageRejected (files : List FileResult) : Bool := !(parsePackage files).errs.isEmpty
+
+/-- NOT the code: the fold in which the error of a file is overwritten by the result of the next file (only the error of
+    the last processed file survives) — the subject of a counterexample. -/
+def parsePackageOverwriting (files : List FileResult) : FileResult :=
+  files.foldl (fun acc f => ⟨acc.links ++ f.links, f.errs⟩) ⟨[], []⟩
+
 /-! ### `GoLinknameSet` -/
 
 /-- `FindImplementation` over the directives of the whole program (the map `byReference`; `Add` rejects a second
